@@ -107,3 +107,72 @@ Proof. reflexivity. Qed.
 
 Lemma lit_order : 0 < lit_ap /\ lit_ap < 1 / 10 ^ 19 /\ lit_bp = 500 /\ lit_an = - 500 /\ lit_bn = - lit_ap /\ 0 < lit_xtol.
 Proof. unfold lit_ap, lit_bp, lit_an, lit_bn, lit_xtol, Q2R; simpl. repeat split; lra. Qed.
+
+(* ---- wave 8b (audit5b B1): the enclosure width TIED to the literals of the code -------------------------------------------
+   scipy's TOMS748Solver stops when  np.isclose(a, b, rtol = rtol, atol = xtol)  i.e.  |a - b| <= xtol + rtol * |b|  and returns
+   the midpoint; levycopulamodel.py passes xtol = 1e-14 and no rtol, so rtol is scipy's default _rtol = 4 * eps = 2^-50 (pinned by an
+   assertion of the harness on scipy.optimize._zeros_py._rtol; the emitter refuses an explicit rtol=).  toms_ok states THAT
+   stopping rule as the specification: the enclosure width is bounded by  xtol + rtol * max(|a|, |b|)  where xtol is the argument the
+   generated code passes.  On the code's brackets (|a|, |b| <= 500) this is  lit_tol = 1e-14 + 2^-50 * 500 < 4.6e-13  -- NOT 1e-14.
+   Still specified, not verified: maxiter = 100 (RuntimeError), nan (ValueError), the shortcuts  f(a) == 0 -> a,  f(b) == 0 -> b,
+   ValueError when f(a) f(b) > 0, and the float evaluation of U are not in this specification. *)
+Definition lit_rtol : R := Q2R (1 # 1125899906842624).       (* 2^-50 = 4 * eps = scipy.optimize._zeros_py._rtol *)
+Definition lit_tol : R := lit_xtol + lit_rtol * 500.
+
+Lemma lit_tol_bound : 0 < lit_tol /\ lit_xtol < lit_tol /\ lit_tol < 46 / 10 ^ 14.
+Proof. unfold lit_tol, lit_xtol, lit_rtol, Q2R; simpl. repeat split; lra. Qed.
+
+Lemma brackets_mono tol tol' f a b r : tol <= tol' -> brackets tol f a b r -> brackets tol' f a b r.
+Proof. intros H [l [h [? [? [? [? [? [? ?]]]]]]]]. exists l, h. repeat split; try assumption. lra. Qed.
+
+Section Toms.
+  Variable U : R -> R.
+  Variable solver : (R -> R) -> R -> R -> R -> R.
+  Definition toms_ok (xtol rtol : R) : Prop :=
+    forall y a b, a <= b -> froot U y b <= 0 -> 0 <= froot U y a ->
+      brackets (xtol + rtol * Rmax (Rabs a) (Rabs b)) (froot U y) a b (solver (froot U y) a b xtol).
+
+  Lemma toms_width a b : - 500 <= a -> a <= b -> b <= 500 -> lit_xtol + lit_rtol * Rmax (Rabs a) (Rabs b) <= lit_tol.
+  Proof.
+    intros A AB B. unfold lit_tol. assert (P : 0 < lit_rtol) by (unfold lit_rtol, Q2R; simpl; lra).
+    assert (M : Rmax (Rabs a) (Rabs b) <= 500) by (apply Rmax_lub; apply Rabs_le; lra).
+    pose proof (Rmult_le_compat_l lit_rtol _ _ (Rlt_le _ _ P) M). lra.
+  Qed.
+
+  Let inv := inv_hand U solver lit_ap lit_bp lit_an lit_bn lit_xtol.
+
+  Theorem left_inverse_toms s1 s2 x : toms_ok lit_xtol lit_rtol -> sdec_on U s1 s2 -> s1 < x < s2 ->
+    (dec_on U lit_ap 500 -> lit_ap <= s1 -> s2 <= 500 -> 0 < U x -> Rabs (inv (U x) - x) <= lit_tol) /\
+    (dec_on U (- 500) (- lit_ap) -> - 500 <= s1 -> s2 <= - lit_ap -> U x <= 0 -> Rabs (inv (U x) - x) <= lit_tol).
+  Proof.
+    intros Tok S X. destruct lit_order as [P0 [P1 [Ebp [Ean [Ebn _]]]]]. unfold inv, inv_hand. split; intros D A B Y.
+    - rewrite (proj2 (Rltb_true 0 (U x)) Y).
+      assert (Fa : 0 <= froot U (U x) lit_ap) by (unfold froot; pose proof (D lit_ap x ltac:(lra) ltac:(lra) ltac:(lra)); lra).
+      assert (Fb : froot U (U x) lit_bp <= 0) by (rewrite Ebp; unfold froot; pose proof (D x 500 ltac:(lra) ltac:(lra) ltac:(lra)); lra).
+      rewrite (proj2 (Rltb_false (froot U (U x) lit_ap) 0) Fa).
+      apply (bracket_unique U lit_ap lit_bp s1 s2); auto; try lra. rewrite Ebp; assumption.
+      apply (brackets_mono (lit_xtol + lit_rtol * Rmax (Rabs lit_ap) (Rabs lit_bp))). apply toms_width; lra.
+      apply (Tok (U x) lit_ap lit_bp ltac:(lra) Fb Fa).
+    - rewrite (proj2 (Rltb_false 0 (U x)) Y).
+      assert (Fa : 0 <= froot U (U x) lit_an) by (rewrite Ean; unfold froot; pose proof (D (-500) x ltac:(lra) ltac:(lra) ltac:(lra)); lra).
+      assert (Fb : froot U (U x) lit_bn <= 0) by (rewrite Ebn; unfold froot; pose proof (D x (- lit_ap) ltac:(lra) ltac:(lra) ltac:(lra)); lra).
+      rewrite (proj2 (Rltb_false 0 (froot U (U x) lit_bn)) Fb).
+      apply (bracket_unique U lit_an lit_bn s1 s2); auto; try lra. rewrite Ean, Ebn; assumption.
+      apply (brackets_mono (lit_xtol + lit_rtol * Rmax (Rabs lit_an) (Rabs lit_bn))). apply toms_width; lra.
+      apply (Tok (U x) lit_an lit_bn ltac:(lra) Fb Fa).
+  Qed.
+
+  (* ---- finding F-C12-6: the level 0 is sent to the NEGATIVE bracket (`if x > 0` is false at 0).  Whatever the root finder does inside
+     its bracket [-500, -1e-20], the inverse of the level 0 is negative: a point x > 0 with U x = 0 (beyond the support of the margin on
+     the positive side) is mapped to the other side of the origin, at distance >= x + 1e-20.  Only "the solver returns a point of its
+     bracket" is assumed, for the one call the code makes. *)
+  Theorem level_zero_wrong_side x :
+    U (- lit_ap) <= 0 -> - 500 <= solver (froot U 0) lit_an lit_bn lit_xtol <= - lit_ap -> 0 < x -> U x = 0 ->
+    inv (U x) = solver (froot U 0) lit_an lit_bn lit_xtol /\ inv (U x) <= - lit_ap /\ x + lit_ap <= Rabs (inv (U x) - x).
+  Proof.
+    intros Ub Hs X Ux. destruct lit_order as [P0 [P1 [Ebp [Ean [Ebn _]]]]]. unfold inv, inv_hand. rewrite Ux.
+    rewrite (proj2 (Rltb_false 0 0)) by lra.
+    rewrite (proj2 (Rltb_false 0 (froot U 0 lit_bn))) by (rewrite Ebn; unfold froot; lra).
+    split; [reflexivity|]. split; [lra|]. set (r := solver _ _ _ _) in *. rewrite Rabs_left by lra. lra.
+  Qed.
+End Toms.
